@@ -497,9 +497,137 @@ Proof.
     + now apply lyds_ok_sorted.
 Qed.
 
+(* ---------- destructive merge (lyds_pool_add / lyds_insert2 / lyds_additionally_reuse_rb_tree) ---------- *)
+(* building the target's tree from recycled nodes, with the hand-over to newly allocated nodes when the pool runs dry,
+   builds exactly the tree of the lazy creation - for every pool size *)
+Lemma reuse_nodes_eq (rest : list A) : forall pool done (t : tree),
+  reuse_nodes cmp ideq false pool rest done t =
+  match create_nodes cmp ideq rest done t with
+  | Some (d, t') => Some (d, t', pool - length rest)
+  | None => None
+  end.
+Proof.
+  induction rest as [|x rest IH]; intros pool done t.
+  - cbn [reuse_nodes create_nodes length]. rewrite Nat.sub_0_r. reflexivity.
+  - cbn [reuse_nodes length]. destruct pool as [|p].
+    + destruct (create_nodes cmp ideq (x :: rest) done t) as [[d t']|]; reflexivity.
+    + cbn [create_nodes]. destruct (rb_insert cmp t x) as [t'|]; [|reflexivity].
+      rewrite IH. reflexivity.
+Qed.
+
+Lemma reuse_tree_eq pool (l : list A) :
+  reuse_tree cmp ideq false pool l =
+  match create_tree cmp ideq l with
+  | Some (d, t') => Some (d, t', Nat.pred pool - (length l - 1))
+  | None => None
+  end.
+Proof.
+  unfold reuse_tree, create_tree. destruct l as [|ld rest]; [reflexivity|].
+  rewrite reuse_nodes_eq. replace (length (ld :: rest) - 1) with (length rest) by (cbn [length]; lia). reflexivity.
+Qed.
+
+(* lyds_insert2() puts the node where lyds_insert() puts it and builds the same tree *)
+Lemma lyds_insert2_insert pool (s : lst A) x :
+  match lyds_insert2 cmp ideq false pool s x, lyds_insert cmp ideq s x false with
+  | Some (s', _), Some s'' => s' = s''
+  | None, None => True
+  | _, _ => False
+  end.
+Proof.
+  unfold lyds_insert2, lyds_insert. destruct (sibs s) as [|y ys]; [reflexivity|].
+  destruct (rbt s) as [[|c l k r]|].
+  - rewrite reuse_tree_eq. destruct (create_tree cmp ideq (y :: ys)) as [[d t']|]; [|exact I].
+    destruct (rb_insert cmp t' x); [reflexivity|exact I].
+  - destruct (rb_insert cmp (Node c l k r) x); [reflexivity|exact I].
+  - rewrite reuse_tree_eq. destruct (create_tree cmp ideq (y :: ys)) as [[d t']|]; [|exact I].
+    destruct (rb_insert cmp t' x); [reflexivity|exact I].
+Qed.
+
+(* Spec: the source instances that the merge inserts - those whose key is neither in the target nor among the
+   source instances inserted before *)
+Fixpoint merge_news (keys xs : list A) : list A :=
+  match xs with
+  | [] => []
+  | x :: r => if has_key cmp x keys then merge_news keys r else x :: merge_news (x :: keys) r
+  end.
+
+Lemma has_key_perm x (l l' : list A) : Permutation l l' -> has_key cmp x l = has_key cmp x l'.
+Proof.
+  unfold has_key. induction 1 as [|y l l' _ IH|y z l|l l' l'' _ IH1 _ IH2]; cbn [existsb].
+  - reflexivity.
+  - now rewrite IH.
+  - destruct (cmp y x), (cmp z x); reflexivity.
+  - congruence.
+Qed.
+
+Lemma merge_news_perm (xs : list A) : forall k k', Permutation k k' -> merge_news k xs = merge_news k' xs.
+Proof.
+  induction xs as [|x xs IH]; intros k k' Hp; cbn [merge_news]; [reflexivity|].
+  rewrite (has_key_perm x k k' Hp). destruct (has_key cmp x k').
+  - now apply IH.
+  - f_equal. apply IH. now apply perm_skip.
+Qed.
+
+Lemma merge_news_incl (xs : list A) : forall k y, In y (merge_news k xs) -> In y xs.
+Proof.
+  induction xs as [|x xs IH]; intros k y H; cbn [merge_news] in H; [destruct H|].
+  destruct (has_key cmp x k).
+  - right. eapply IH, H.
+  - destruct H as [<-|H]; [left; reflexivity|right; eapply IH, H].
+Qed.
+
+(* lyd_merge of the instances xs of one (leaf-)list into the target, destructive (any number of recycled nodes) or not:
+   never a NULL dereference, tree and siblings agree, nothing is lost and nothing doubled (the siblings are the old
+   ones plus the new source instances), and they are the stable sorted merge of both runs: sorting the result (already
+   sorted as soon as there is a tree) equals inserting the new instances one by one into the sorted target *)
+Theorem lyd_merge_list_spec (xs : list A) : forall pool (s : lst A),
+  lyds_ok s -> NoDup (sibs s ++ xs) ->
+  exists s', lyd_merge_list cmp ideq false pool s xs = Some s' /\ lyds_ok s' /\
+             isort cmp (sibs s') = fold_left SI (merge_news (sibs s) xs) (isort cmp (sibs s)) /\
+             Permutation (sibs s ++ merge_news (sibs s) xs) (sibs s') /\
+             (~ no_tree s' -> sorted cmp (sibs s')).
+Proof.
+  induction xs as [|x xs IH]; intros pool s Hok Hnd; cbn [lyd_merge_list merge_news].
+  - exists s. split; [reflexivity|]. split; [exact Hok|]. split; [reflexivity|]. split; [now rewrite app_nil_r|].
+    now apply lyds_ok_sorted.
+  - assert (Hx : ~ In x (sibs s)).
+    { apply NoDup_remove_2 in Hnd. intro Hin. apply Hnd. apply in_or_app. now left. }
+    destruct (has_key cmp x (sibs s)).
+    + apply IH; [exact Hok|]. eapply NoDup_remove_1, Hnd.
+    + destruct (lyds_insert_spec s x false Hok Hx) as (s1 & E1 & Hok1 & Hs1).
+      assert (Hp1 : Permutation (x :: sibs s) (sibs s1)) by (rewrite Hs1; apply insert_result_perm).
+      assert (Hnd1 : NoDup (sibs s1 ++ xs)).
+      { apply (Permutation_NoDup (l := sibs s ++ x :: xs)); [|exact Hnd].
+        etransitivity; [symmetry; apply Permutation_middle|]. change (x :: sibs s ++ xs) with ((x :: sibs s) ++ xs).
+        now apply Permutation_app_tail. }
+      assert (Hstep : exists p', match pool with
+                                 | O => match lyds_insert cmp ideq s x false with
+                                        | Some s' => lyd_merge_list cmp ideq false O s' xs
+                                        | None => None
+                                        end
+                                 | S _ => match lyds_insert2 cmp ideq false pool s x with
+                                          | Some (s', p'0) => lyd_merge_list cmp ideq false p'0 s' xs
+                                          | None => None
+                                          end
+                                 end = lyd_merge_list cmp ideq false p' s1 xs).
+      { destruct pool as [|p].
+        - exists 0. now rewrite E1.
+        - pose proof (lyds_insert2_insert (S p) s x) as H2. rewrite E1 in H2.
+          destruct (lyds_insert2 cmp ideq false (S p) s x) as [[s2 p2]|]; [|destruct H2]. subst s2. now exists p2. }
+      destruct Hstep as (p' & ->).
+      destruct (IH p' s1 Hok1 Hnd1) as (s' & E & Hok' & Hi & Hp & Hsrt).
+      rewrite (merge_news_perm xs (sibs s1) (x :: sibs s) (Permutation_sym Hp1)) in Hi, Hp.
+      exists s'. split; [exact E|]. split; [exact Hok'|]. split; [|split; [|exact Hsrt]].
+      * cbn [fold_left]. rewrite Hi, Hs1. now rewrite isort_insert_result.
+      * etransitivity; [|exact Hp]. etransitivity; [symmetry; apply Permutation_middle|].
+        change (x :: sibs s ++ merge_news (x :: sibs s) xs) with ((x :: sibs s) ++ merge_news (x :: sibs s) xs).
+        now apply Permutation_app_tail.
+Qed.
+
 End SortedP.
 
 Arguments lyds_ok {A}.
 Arguments insert_result {A}.
 Arguments lyds_run {A}.
 Arguments no_tree {A}.
+Arguments merge_news {A}.
